@@ -149,6 +149,7 @@ type sched struct {
 	re        *process.RuntimeEnvironment
 	last      *task
 	stepRel   int
+	nspawned  int
 }
 
 func (s *sched) logf(f string, a ...any) { s.log = append(s.log, fmt.Sprintf(f, a...)) }
@@ -172,6 +173,7 @@ func (s *sched) Spawn(p *process.Process, re *process.RuntimeEnvironment, run fu
 	t.prio = int64(h.Sum64() >> 1)
 	s.tasks[p] = t
 	s.order = append(s.order, t)
+	s.nspawned++
 	s.logf("spawn %s by %s", t.id, par.id)
 	s.mu.Unlock()
 	go func() {
@@ -338,6 +340,26 @@ func (s *sched) doomed(t *task) bool {
 
 func (s *sched) enabled(cancelled bool) []trans {
 	var out []trans
+	// index the parked receivers / control-channel listeners once (the scan is linear in the tasks)
+	recvOn := map[chan process.Message][]*task{}
+	ctlOn := map[chan process.ControlMessage][]*task{}
+	for _, r := range s.order {
+		if r.state != stOp {
+			continue
+		}
+		switch r.kind {
+		case process.SimRecv, process.SimRecvRaw, process.SimSelectRecvNP:
+			if r.data != nil {
+				recvOn[r.data] = append(recvOn[r.data], r)
+			}
+		}
+		switch r.kind {
+		case process.SimSelectSendNP, process.SimSelectRecvNP, process.SimPollNP, process.SimSelectFwdNP:
+			if r.ctlIn != nil {
+				ctlOn[r.ctlIn] = append(ctlOn[r.ctlIn], r)
+			}
+		}
+	}
 	for _, t := range s.order {
 		switch t.state {
 		case stStep, stAfter, stSpawned:
@@ -358,7 +380,7 @@ func (s *sched) enabled(cancelled bool) []trans {
 						out = append(out, trans{a: t, desc: "bufsend " + t.id, comm: true})
 					}
 				} else {
-					for _, r := range s.order {
+					for _, r := range recvOn[t.data] {
 						if r != t && isRecvOn(r, t.data) && !s.doomed(r) {
 							if cancelled && (hasCtx(r.kind) || hasCtx(t.kind)) {
 								continue // both the data case and ctx.Done would be ready: not replayable, not offered
@@ -389,7 +411,7 @@ func (s *sched) enabled(cancelled bool) []trans {
 					out = append(out, trans{a: t, desc: "ctlclosed " + t.id, comm: true})
 					break
 				}
-				for _, r := range s.order {
+				for _, r := range ctlOn[t.ctlOut] {
 					if r != t && listensCtl(r, t.ctlOut) && !s.doomed(r) {
 						if cancelled && hasCtx(r.kind) {
 							continue
@@ -529,6 +551,23 @@ func (s *sched) table() []Blocked {
 	return out
 }
 
+// maxTasks bounds the process goroutines of one run (a run that spawns without end is cut off
+// like one that exceeds the step budget: inconclusive, counted).
+const maxTasks = 600
+
+// prune drops finished tasks from the scan list (their relative order is kept).
+func (s *sched) prune() {
+	s.mu.Lock()
+	defer s.mu.Unlock()
+	live := s.order[:0]
+	for _, t := range s.order {
+		if t.state != stExited && t.state != stKilled && t.state != stPanicked {
+			live = append(live, t)
+		}
+	}
+	s.order = live
+}
+
 // run drives the simulation; it is the scheduler goroutine.
 func (s *sched) run() {
 	r := s.res
@@ -546,9 +585,12 @@ func (s *sched) run() {
 	}
 	for {
 		r.Steps = len(r.Schedule)
-		if r.Steps >= maxSteps {
+		if r.Steps >= maxSteps || len(s.order) > maxTasks {
 			r.Budget = !quiescedOnce
 			break
+		}
+		if r.Steps%64 == 63 {
+			s.prune()
 		}
 		if s.cfg.CancelAt >= 0 && r.Steps == s.cfg.CancelAt && !s.cancelled() {
 			expire("premature heartbeat expiry")
@@ -669,7 +711,7 @@ func (s *sched) run() {
 			parked = append(parked, t)
 		}
 	}
-	r.Tasks = len(s.order)
+	r.Tasks = s.nspawned
 	if s.cfg.KeepLeftovers {
 		s.freeRun = true
 	}
